@@ -66,7 +66,7 @@ pub fn inject_error(files: &Files, rng: &mut Rng) -> (&'static str, Files) {
     let paths: Vec<String> = f.keys().cloned().collect();
     let any = rng.pick(&paths).clone();
     let nl = if f[&any].contains("\r\n") { "\r\n" } else { "\n" };
-    let kind = rng.below(10);
+    let kind = rng.below(11);
     let phase = match kind {
         0 => {
             // lexical: a character no token starts with
@@ -78,6 +78,15 @@ pub fn inject_error(files: &Files, rng: &mut Rng) -> (&'static str, Files) {
         1 => {
             let t = f.get_mut(&any).unwrap();
             t.push_str(&format!("{nl}let broken = \"unterminated ;{nl}"));
+            "lexical"
+        }
+        10 => {
+            // exactly N lexical errors (one per stray character), N around and at multiples of 256
+            let n = *rng.pick(&[255usize, 256, 256, 257, 512]);
+            let t = f.get_mut(&any).unwrap();
+            t.push_str(nl);
+            t.push_str(&"^".repeat(n));
+            t.push_str(nl);
             "lexical"
         }
         9 => {
@@ -517,6 +526,7 @@ pub fn c15_gen_cfg(rng: &mut Rng, giant_ok: bool) -> GenCfg {
             examples_bias: 2,
             shadow_bias: 5,
             res_range: (50, 100),
+            odd_spellings: false,
         };
     }
     GenCfg {
@@ -527,6 +537,7 @@ pub fn c15_gen_cfg(rng: &mut Rng, giant_ok: bool) -> GenCfg {
         examples_bias: 2,
         shadow_bias: 5,
         res_range: (1, 3),
+        odd_spellings: false,
     }
 }
 
@@ -641,6 +652,7 @@ pub fn plan(seed: u64, prop: &str, run: u64, sem: Sem) -> Plan {
             examples_bias: 1,
             shadow_bias: 3,
             res_range: (1, 2),
+            odd_spellings: false,
         };
         let ast_b = gen::generate(&mut wl, &cfg_b);
         let lb = layout(&mut wl, &sw);
